@@ -420,6 +420,14 @@ fn c02(seed: u64, case: u64, out: &Out) {
 
 
 // ====================================================================== C15
+/// Records by how much a blocked call overran its timeout when the task leaves (also when it leaves by a cancel).
+struct LateGuard(Arc<Mutex<Vec<u64>>>, u64, u64);
+impl Drop for LateGuard {
+    fn drop(&mut self) {
+        self.0.lock().unwrap().push((mono_ns() - self.1).saturating_sub(self.2 * 1_000_000));
+    }
+}
+
 fn c15(seed: u64, case: u64, out: &Out) {
     use open_coroutine_core::syscall as oc;
     let mut rng = Rng::for_case(seed ^ 0xC15, case);
@@ -427,7 +435,7 @@ fn c15(seed: u64, case: u64, out: &Out) {
     let n = *rng.pick(&[8usize, 16, 32]);
     let d_ms: u64 = *rng.pick(&[100u64, 200]);
     // which hooked call the N tasks block in (scenario 0: timed waits, scenario 1: socket calls that run into the socket's timeout)
-    let kind = if scenario == 0 { ["usleep/nanosleep", "poll", "select", "pthread_cond_timedwait", "mixed timed waits"][(case / 3 % 5) as usize] } else if scenario == 1 { ["recv on an empty socket", "send on a full socket", "accept on an idle listener"][(case / 3 % 3) as usize] } else { "usleep" };
+    let kind = if scenario == 0 { ["usleep/nanosleep", "poll", "select", "mixed timed waits"][(case / 3 % 4) as usize] } else if scenario == 1 { ["recv on an empty socket", "send on a full socket", "accept on an idle listener"][(case / 3 % 3) as usize] } else { "usleep" };
     out.begin(case, jobj! {"blocking_call" => kind, "scenario" => ["N tasks in hooked usleep/nanosleep + one computing sibling", "N tasks parked in a hooked recv (SO_RCVTIMEO) + one computing sibling", "a task submitted while the only worker is parked in a long hooked sleep"][scenario as usize],
         "tasks" => n, "each_blocks_ms" => d_ms});
     init(1, n + 8, 0, 0);
@@ -467,13 +475,23 @@ fn c15(seed: u64, case: u64, out: &Out) {
         std::mem::forget(ha);
     } else {
         // computing sibling: yields all the time, must keep making progress while the others are parked
-        let (p2, s2) = (progress.clone(), stop_sibling.clone());
+        // the sibling is always runnable, so the loop thread has no reason to sit in a wait: every step that comes more than
+        // 8 ms after the previous one is a stall of the loop thread (or of the machine, see the load monitor)
+        let stalls: Arc<Mutex<Vec<(u64, u64)>>> = Arc::default();
+        let lateness: Arc<Mutex<Vec<u64>>> = Arc::default();
+        let (p2, s2, st2) = (progress.clone(), stop_sibling.clone(), stalls.clone());
         let hs = EventLoops::submit_task(None, move |_| {
+            let mut last = mono_ns();
             while !s2.load(Ordering::SeqCst) {
                 p2.fetch_add(1, Ordering::SeqCst);
                 if let Some(s) = SchedulableSuspender::current() {
                     s.suspend();
                 }
+                let t = mono_ns();
+                if t - last > 8_000_000 {
+                    st2.lock().unwrap().push((t, t - last));
+                }
+                last = t;
             }
             Some(0)
         }, None, None);
@@ -487,10 +505,12 @@ fn c15(seed: u64, case: u64, out: &Out) {
                     "usleep/nanosleep" => i % 2,
                     "poll" => 2,
                     "select" => 3,
-                    "pthread_cond_timedwait" => 4,
-                    _ => i % 5,
+                    _ => i % 4,
                 };
+                let late = lateness.clone();
                 hs_all.push(EventLoops::submit_task(None, move |_| {
+                    let t_in = mono_ns();
+                    let _late_guard = LateGuard(late, t_in, d_ms);
                     match which {
                         0 => {
                             let _ = oc::usleep(None, (d_ms * 1000) as u32);
@@ -502,21 +522,10 @@ fn c15(seed: u64, case: u64, out: &Out) {
                         2 => {
                             let _ = oc::poll(None, std::ptr::null_mut(), 0, d_ms as libc::c_int);
                         }
-                        3 => {
+                        _ => {
                             let mut t = libc::timeval { tv_sec: (d_ms / 1000) as libc::time_t, tv_usec: ((d_ms % 1000) * 1000) as libc::suseconds_t };
                             let _ = oc::select(None, 0, std::ptr::null_mut(), std::ptr::null_mut(), std::ptr::null_mut(), &raw mut t);
                         }
-                        _ => unsafe {
-                            let mut m: libc::pthread_mutex_t = libc::PTHREAD_MUTEX_INITIALIZER;
-                            let mut c: libc::pthread_cond_t = libc::PTHREAD_COND_INITIALIZER;
-                            libc::pthread_mutex_lock(&raw mut m);
-                            let mut nowts: libc::timespec = std::mem::zeroed();
-                            libc::clock_gettime(libc::CLOCK_REALTIME, &raw mut nowts);
-                            let abs = nowts.tv_sec as u64 * 1_000_000_000 + nowts.tv_nsec as u64 + d_ms * 1_000_000;
-                            let ts = libc::timespec { tv_sec: (abs / 1_000_000_000) as libc::time_t, tv_nsec: (abs % 1_000_000_000) as libc::c_long };
-                            let _ = oc::pthread_cond_timedwait(None, &raw mut c, &raw mut m, &raw const ts);
-                            libc::pthread_mutex_unlock(&raw mut m);
-                        },
                     }
                     d2.fetch_add(1, Ordering::SeqCst);
                     Some(i)
@@ -538,7 +547,9 @@ fn c15(seed: u64, case: u64, out: &Out) {
                     assert_eq!(0, unsafe { libc::listen(l, 4) });
                     let _ = std::fs::remove_file(&path);
                     socks.push([l, -1]);
+                    let late = lateness.clone();
                     hs_all.push(EventLoops::submit_task(None, move |_| {
+                        let _late_guard = LateGuard(late, mono_ns(), d_ms);
                         let _ = oc::setsockopt(None, l, libc::SOL_SOCKET, libc::SO_RCVTIMEO, std::ptr::from_ref(&tv).cast(), tvlen);
                         let _ = oc::accept(None, l, std::ptr::null_mut(), std::ptr::null_mut());
                         d2.fetch_add(1, Ordering::SeqCst);
@@ -561,7 +572,9 @@ fn c15(seed: u64, case: u64, out: &Out) {
                         libc::fcntl(fd, libc::F_SETFL, fl);
                     }
                 }
+                let late = lateness.clone();
                 hs_all.push(EventLoops::submit_task(None, move |_| {
+                    let _late_guard = LateGuard(late, mono_ns(), d_ms);
                     if sending {
                         let _ = oc::setsockopt(None, fd, libc::SOL_SOCKET, libc::SO_SNDTIMEO, std::ptr::from_ref(&tv).cast(), tvlen);
                         let b = [5u8; 4096];
@@ -594,6 +607,29 @@ fn c15(seed: u64, case: u64, out: &Out) {
             viol = Some(("blocked-coroutines-ran-one-after-another".into(), format!("{n} tasks blocking {d_ms} ms each finished after {total_ms} ms (bound {bound} ms, serial {} ms)", n as u64 * d_ms)));
         } else if p_during < 5 {
             viol = Some(("sibling-starved-while-others-blocked".into(), format!("the computing sibling made {p_during} steps in {total_ms} ms")));
+        }
+        // (a) how late did the blocked calls come back, (b) how often did the loop thread stall although the sibling was runnable
+        let mut lat = lateness.lock().unwrap().clone();
+        lat.sort_unstable();
+        let median_late_ms = lat.get(lat.len() / 2).copied().unwrap_or(0) / 1_000_000;
+        let t_sub_ns = mono_ns() - t_sub.elapsed().as_nanos() as u64;
+        let st: Vec<(u64, u64)> = stalls.lock().unwrap().iter().filter(|(t, _)| *t >= t_sub_ns).copied().collect();
+        let stalled_ms: u64 = st.iter().map(|s| s.1).sum::<u64>() / 1_000_000;
+        let (_, _, bad_samples) = wl_core::load_window(total_ms * 1_000_000 + 1_000_000_000);
+        if let J::O(ref mut o) = obs {
+            o.push(("median_lateness_of_blocked_calls_ms".into(), J::U(median_late_ms)));
+            o.push(("loop_stalls_over_8ms_while_sibling_runnable".into(), J::U(st.len() as u64)));
+            o.push(("loop_stalled_ms_in_total".into(), J::U(stalled_ms)));
+            o.push(("load_monitor_bad_samples".into(), J::U(bad_samples as u64)));
+        }
+        if viol.is_none() && bad_samples == 0 {
+            // healthy: a blocked call comes back within one pass of the loop, and the loop never sits still while the sibling can run;
+            // serialised wake-ups (each returning call holding the loop thread) show as lateness and stall time that grow with N
+            if median_late_ms > 40 + 20 * noise_ms {
+                viol = Some(("blocked-calls-come-back-late-in-proportion-to-their-number".into(), format!("{n} tasks blocked for {d_ms} ms each: the median call returned {median_late_ms} ms late; the loop thread stalled {} times (> 8 ms, {stalled_ms} ms in total) although a sibling was runnable", st.len())));
+            } else if st.len() >= n / 2 && stalled_ms > 5 * n as u64 + 20 * noise_ms {
+                viol = Some(("loop-thread-stalled-while-a-sibling-was-runnable".into(), format!("{n} tasks blocked for {d_ms} ms each: the loop thread stalled {} times for more than 8 ms ({stalled_ms} ms in total) between two steps of an always-runnable sibling", st.len())));
+            }
         }
         std::mem::forget(hs);
         std::mem::forget(hs_all);
